@@ -2,6 +2,7 @@ package main
 
 import (
 	"math/big"
+	"strings"
 
 	"github.com/crate-crypto/go-ipa/bandersnatch/fr"
 	"github.com/crate-crypto/go-ipa/ipa"
@@ -117,6 +118,36 @@ func (d *driver) runPolyCase(w emitter, k int, c *polyCase) {
 		f := polyClass(c.F, c.J, p)
 		fv := vecReg(f)
 		for _, idx := range c.K {
+			if strings.HasPrefix(c.F, "rel:") {
+				// polynomials shaped RELATIVE to the index divided at: unit vectors next to it, a step / plateau starting at it,
+				// a dense prefix ending right before it (the shape of an absence proof)
+				f = make([]fr.Element, 256)
+				switch c.F {
+				case "rel:unit-1":
+					f[(idx+255)%256] = p.fr()
+				case "rel:unit+1":
+					f[(idx+1)%256] = p.fr()
+				case "rel:step":
+					a, b := p.fr(), p.fr()
+					for i := range f {
+						if i < idx {
+							f[i] = a
+						} else {
+							f[i] = b
+						}
+					}
+				case "rel:plateau":
+					for i := range f {
+						f[i] = p.fr()
+					}
+					f[(idx+1)%256] = f[idx]
+				default: // rel:prefix
+					for i := 0; i < idx; i++ {
+						f[i] = p.fr()
+					}
+				}
+				fv = vecReg(f)
+			}
 			before := append([]fr.Element(nil), f...)
 			q := cfg.PrecomputedWeights.DivideOnDomain(uint8(idx), f)
 			same := true
